@@ -143,7 +143,7 @@ Proof.
   - vm_compute. discriminate.
 Qed.
 
-(** C18_aut_count / C18_orbits_partial: the example view has exactly two minimal leaves, i.e. two structure-preserving
+(** C18_aut_count / C18_orbit_relation: the example view has exactly two minimal leaves, i.e. two structure-preserving
     self-maps (identity and A<->B, r_1<->r_2); the second leaf is the image of the first under the swap *)
 Definition swapx (x : N) : N :=
   if N.eqb x 0 then 1%N else if N.eqb x 1 then 0%N else if N.eqb x 3 then 4%N else if N.eqb x 4 then 3%N else x.
@@ -209,6 +209,6 @@ Qed.
 Example ex_vf2_orbits : conn (uf_orbits (node_ids g1) (auts g1)) 0%N 1%N /\ length (uf_orbits (node_ids g1) (auts g1)) = 3.
 Proof. split; [exists [1;0]%N; vm_compute; auto|vm_compute; reflexivity]. Qed.
 
-(** C18_orbits_sound_partial: the canonicaliser's orbit list of the example: {r_1,r_2}, {A,B}, {C} *)
+(** C18_orbits / C18_orbits_cover: the canonicaliser's orbit list of the example: {r_1,r_2}, {A,B}, {C} *)
 Example ex_canon_orbits : orbits_from_perms (min_leaves g1) = [[3;4];[1;0];[2]]%N.
 Proof. rewrite min_leaves_g1. vm_compute. reflexivity. Qed.
